@@ -234,7 +234,14 @@ func C03(tier string) int {
 			return r
 		}
 	}
-	cfgs := FilterConfigs(c03Configs(archs, nil, lens))
+	all := c03Configs(archs, nil, lens)
+	// the field helpers themselves, for every bit string of the given lengths (including the wide fields of 32- and
+	// 64-bit immediates, whose decimal text the per-opcode configurations cannot reach)
+	for _, n := range []int{1, 2, 7, 8, 16, 31, 32, 33, 40, 48, 62} {
+		all = append(all, Config{Name: fmt.Sprintf("field helpers get_id/zeros_prefix on %d-bit fields", n), Func: "zzC03Bits", Args: []Arg{I(n), I(3)},
+			Setup: func(in *symgo.Interp) { in.MaxUnwind = 200 }})
+	}
+	cfgs := FilterConfigs(all)
 	sp := &Spec{
 		ID: "C03", Level: "proof", Tier: tier, Harness: h,
 		LoadPkgs: []string{"pkg/procbuilder"},
@@ -246,6 +253,7 @@ func C03(tier string) int {
 			"architectures satisfy the opcode's resource preconditions (N>=1 for input opcodes, M>=1 for output opcodes, L>=1 for RAM opcodes)",
 			"mode ha only; shared-object and floating-point-literal operands are outside",
 			"input text is ASCII",
+			"field helpers: get_id and zeros_prefix are decided for all bit strings of lengths 1..62 (selected lengths): get_id is the value of the bits, zeros_prefix pads with zeros to exactly the width and keeps the value",
 		},
 		Bounds: map[string]interface{}{"architectures": archStrings(archs), "numeric_bit_lengths": "quick: {1,w-1,w,w+1,w+2}; thorough: 1..min(w+2,18)", "opcodes_with_shapes": len(c03Shapes), "opcode_sets": map[string]string{"setA": setA, "setB": setB, "setC": setC, "setAll": setAll}},
 		Rule:   "one obligation per assert/panic site per (architecture, opcode, numeric bit lengths); operand values are solver variables; distinct by (function,args,tag,position)",
